@@ -119,7 +119,7 @@ impl Prop for Repetition {
         )
             .prop_map(|(n, pick, mirror, recorded_mask, shape, extra_depth, seed, hasher_seed, w, sched)| {
                 let workers = WORKERS[w as usize];
-                Case { n, pick, mirror, recorded_mask, shape, extra_depth, seed, hasher_seed, workers, sched: if workers > 1 { Some(sched) } else { None } }
+                Case { n, pick, mirror, recorded_mask, shape, extra_depth, seed, hasher_seed, workers, sched: if workers > 1 && sched % 8 != 0 { Some(sched) } else { None } }
             })
             .boxed()
     }
